@@ -237,6 +237,18 @@ pub fn run(opts: &HashMap<String, String>) -> i32 {
                     run_traced(rid + 900, &input, &v);
                     runs += 1;
                 }
+                // the caller consumed a prefix (byte order mark, magic) from the reader before building the parser on it
+                if rng.gen_range(0..2) == 0 {
+                    let prefix: &[u8] = [b"\xef\xbb\xbf".as_slice(), b"##", b"\x00", b"MAGIC\t"][rng.gen_range(0..4)];
+                    let mut doc = prefix.to_vec();
+                    doc.extend_from_slice(&input);
+                    let mut k = base.clone();
+                    k.pre_advance = prefix.len();
+                    k.chunk = [1usize, 2, 16384][rng.gen_range(0..3)];
+                    k.seed = s ^ 0x99;
+                    run_traced(rid + 902, &doc, &k);
+                    runs += 1;
+                }
                 // AIGER: the streaming API with sections left early (a run of its own, not compared item by item)
                 if parser == "aag" || parser == "aig" {
                     let mut k = base.clone();
